@@ -18,6 +18,27 @@ impl Wire for u32 {
     }
 }
 
+/// `f64` atoms: protocol code 999999 = NaN, 1000001 = -0.0, any other n = n as f64 (the model's `nanCode` / `negZero`)
+impl Wire for f64 {
+    fn from_sx(x: &Sx) -> Option<Self> {
+        let v = x.nat()?;
+        Some(match v {
+            999_999 => f64::NAN,
+            1_000_001 => -0.0_f64,
+            n => n as f64,
+        })
+    }
+    fn to_sx(&self) -> Sx {
+        if self.is_nan() {
+            n(999_999)
+        } else if *self == 0.0 && self.is_sign_negative() {
+            n(1_000_001)
+        } else {
+            n(*self as usize)
+        }
+    }
+}
+
 impl<T: Wire> Wire for Option<T> {
     fn from_sx(x: &Sx) -> Option<Self> {
         match x {
